@@ -337,6 +337,19 @@ func (w *world) RoundTrip(req *http.Request) (*http.Response, error) {
 	if strings.HasPrefix(ah, "Basic ") && !g.basicAsked {
 		w.violate("password-without-basic-challenge", "registry %s never sent a Basic challenge but receives %q", g.host, ah)
 	}
+	// a token cached under one scheme must not be replayed under the other
+	if strings.HasPrefix(ah, "Bearer ") {
+		for _, c := range []auth.Credential{g.cred, g.clientCred} {
+			if (c.Username != "" || c.Password != "") && ah[7:] == base64.StdEncoding.EncodeToString([]byte(c.Username+":"+c.Password)) {
+				w.violate("scheme-confusion", "the Basic token (username:password) of %s is sent as a Bearer token: %q", g.host, ah)
+			}
+		}
+	}
+	if strings.HasPrefix(ah, "Basic ") {
+		if _, isTok := w.tokens[ah[6:]]; isTok || (g.clientCred.AccessToken != "" && ah[6:] == g.clientCred.AccessToken) {
+			w.violate("scheme-confusion", "a bearer token of %s is sent as a Basic token: %q", g.host, ah)
+		}
+	}
 	for _, s := range []string{g.cred.RefreshToken, g.clientCred.RefreshToken} {
 		if s != "" && strings.Contains(dump, s) {
 			w.violate("refresh-token-to-registry", "refresh token sent to the registry %s itself: %s", g.host, oneLine(dump))
